@@ -670,7 +670,7 @@ fn compress_sample(input: &[u8]) -> Value {
 
 /// Writes the packet value `pj` with the real writer into a buffer of `cap` bytes and reads the
 /// datagram back with the true token mode (scratch of `rcap` bytes).
-fn rt_block(v: u64, pj: &Value, cap: usize, rcap: usize) -> Map<String, Value> {
+fn rt_block(v: u64, pj: &Value, cap: usize, rcap: usize, same_hint: Option<&str>) -> Map<String, Value> {
     let o = Owned::from_json(pj);
     let mut zs = Vec::new();
     if o.t == "chunks" {
@@ -695,6 +695,7 @@ fn rt_block(v: u64, pj: &Value, cap: usize, rcap: usize) -> Map<String, Value> {
         m.insert("r".into(), Value::from("skip"));
         m
     });
+    let mut rd2 = skip();
     let wr = match r {
         Err(m) => panic_json(&m),
         Ok(None) => json!({"r": "badcase"}),
@@ -708,6 +709,13 @@ fn rt_block(v: u64, pj: &Value, cap: usize, rcap: usize) -> Map<String, Value> {
                 "false"
             };
             rd = Value::Object(read_obj(v, &bytes, hint, rcap));
+            // the reader that accepted the value had another hint than the true token mode (no hint):
+            // the written datagram is read back under that hint as well
+            if let Some(h) = same_hint {
+                if h != hint {
+                    rd2 = Value::Object(read_obj(v, &bytes, h, rcap));
+                }
+            }
             json!({"r": "ok", "bytes": bj(&bytes)})
         }
     };
@@ -719,6 +727,7 @@ fn rt_block(v: u64, pj: &Value, cap: usize, rcap: usize) -> Map<String, Value> {
     b.insert("wr".into(), wr);
     b.insert("wcanary".into(), Value::from(wcanary));
     b.insert("rd".into(), rd);
+    b.insert("rd2".into(), rd2);
     b
 }
 
@@ -766,7 +775,7 @@ fn exec_case(case: &Value) -> Value {
                     }
                 }
             }
-            for (key, val) in rt_block(v, &p, cap, rcap) {
+            for (key, val) in rt_block(v, &p, cap, rcap, None) {
                 ev.insert(key, val);
             }
         }
@@ -775,7 +784,7 @@ fn exec_case(case: &Value) -> Value {
             let hint = case["hint"].as_str().unwrap_or("none");
             let ro = read_obj(v, &jb(&case["bytes"]), hint, cap);
             let rw = if ro["out"]["r"] == "ok" {
-                Value::Object(rt_block(v, &ro["out"]["p"], DEFAULT_CAP, DEFAULT_CAP))
+                Value::Object(rt_block(v, &ro["out"]["p"], DEFAULT_CAP, DEFAULT_CAP, Some(hint)))
             } else {
                 skip()
             };
